@@ -71,6 +71,8 @@ type Exec struct {
 	syncMaps map[string]*MapV // contents of sync.Map objects
 	syncPools map[string][]Value // stashes of sync.Pool objects
 	timerResets map[string]int // re-arm count of default-model timers
+	decoders  map[string]*decoderState // internal/json.Decoder objects
+	jsonExact bool // numbers decoded into `any` stay exact (UseNumber)
 	shared   map[string]bool
 	regions  map[string][]knownRegion
 	allowPanic []string
